@@ -125,7 +125,8 @@ def c14_plain(x=0, s=""):
     with tempfile.TemporaryDirectory() as td:
         p = os.path.join(td, "a.json")
         w = RecordWriter("jsonfile://" + p + "?descriptors=false")
-        w.write(D(n=x, s=s, f=1.5, b=True))
+        first = D(n=x, s=s, f=1.5, b=True, _source="src-1", _classification="cls-1")
+        w.write(first)
         w.write(D(n=None, s="t", f=None, b=False, u=9))
         w.close()
         with open(p, "a") as f:
@@ -136,6 +137,9 @@ def c14_plain(x=0, s=""):
         except Exception as e:
             return {"violates": True, "detail": f"reading plain JSON lines raised {type(e).__name__}: {e}"}
     ok = len(back) == 3 and back[0].n == x and back[0].s == s and back[0].f == 1.5 and back[0].b in (True, 1) and back[0].u is None and back[1].n is None and back[1].s == "t" and back[1].f is None and back[1].b in (False, 0) and back[1].u == 9 and isinstance(back[1].u, int) and back[2].other == 1
+    meta = (back[0]._source, back[0]._classification, back[0]._version, back[0]._generated == first._generated) if back else None
+    if ok and meta != ("src-1", "cls-1", 1, True):
+        return {"violates": True, "detail": f"the reserved fields of a plain line (written: _source='src-1', _classification='cls-1', _version=1, the record's _generated) were read back as {meta}"}
     return {"violates": not ok, "read": repr(back)[:300]}
 
 
